@@ -46,6 +46,9 @@ ERR_TABLE = [
     ("ValueError", "We don't support setting item masks", "maskedSetMask"),
     ("ValueError", "slice step cannot be zero", "stepZero"),
     ("RuntimeError", "Slice extraction produced invalid", "domainError"),
+    ("ValueError", "length of data does not match length of array element", "rowLenMismatch"),
+    ("ValueError", "Dimensions of mask do not match array", "dimMismatch"),
+    ("TypeError", "Object is not a slice", "notASlice"),
 ]
 
 
@@ -114,6 +117,73 @@ def make_codec(imath, clsname):
     return None
 
 
+COMP_SETS = [("x", "y", "z", "w"), ("x", "y", "z"), ("x", "y"), ("r", "g", "b", "a"), ("r", "g", "b"), ("r", "x", "y", "z"), ("min", "max")]
+
+
+def comp_info(imath, clsname):
+    """component-array properties of a vector array class (`.x .y ..`, `.r .g ..`, quaternion `.r .x .y .z`,
+    box `.min .max`), by introspection: None, or {names, w, make(cells)->element, first(element)->int,
+    cenc(int)->component value, cdec(component value)->int, ccls: component array class name}"""
+    c = getattr(imath, clsname, None)
+    if c is None or not clsname.endswith("Array"):
+        return None
+    base = clsname[:-5]
+    el = getattr(imath, base, None)
+    if el is None and re.match(r"^C[34][cf]$", base):
+        el = getattr(imath, "Color" + base[1:], None)
+    if el is None:
+        return None
+    names = None
+    try:
+        probe = c(1)
+    except Exception:
+        return None
+    for cs in COMP_SETS:
+        try:
+            if all(hasattr(probe, n) for n in cs):
+                # the widest set wins, but `.r` of a colour array must not be mistaken for a quaternion
+                if cs == ("r", "x", "y", "z") and not base.startswith("Quat"):
+                    continue
+                if cs[0] == "x" and base.startswith("Quat"):
+                    continue
+                names = cs
+                break
+        except TypeError:       # e.g. V2i64Array.x: the component array type has no Python class
+            return None
+    if names is None:
+        return None
+    w = len(names)
+    try:
+        ccls = type(getattr(probe, names[0])).__name__
+    except Exception:
+        return None
+    if base.startswith("Box"):
+        vcd = make_codec(imath, ccls)
+        if vcd is None:
+            return None
+        venc, vdec, _ = vcd
+        make = lambda cells: el(venc(cells[0]), venc(cells[1]))
+        first = lambda e: vdec(e.min())
+        return {"names": names, "w": w, "make": make, "first": first, "cenc": venc, "cdec": vdec, "ccls": ccls}
+    isf = ccls in ("FloatArray", "DoubleArray")
+    cenc = (lambda x: float(x)) if isf else (lambda x: int(x))
+    cdec = lambda x: int(x)
+    if base.startswith("Quat"):
+        make = lambda cells: el(cenc(cells[0]), cenc(cells[1]), cenc(cells[2]), cenc(cells[3]))
+        first = lambda e: int(e.r())
+    else:
+        make = lambda cells: el(*[cenc(x) for x in cells])
+        first = lambda e: int(e[0])
+    try:
+        e = make(list(range(1, w + 1)))
+        a = c(1); a[0] = e
+        if first(a[0]) != 1 or cdec(getattr(a, names[w - 1])[0]) != w:
+            return None
+    except Exception:
+        return None
+    return {"names": names, "w": w, "make": make, "first": first, "cenc": cenc, "cdec": cdec, "ccls": ccls}
+
+
 def array_classes(imath):
     """FixedArray classes by introspection: __getitem__/__len__, name ends in Array, and the generic
     FixedArray protocol (makeReadOnly/writable/ifelse)."""
@@ -139,13 +209,17 @@ class RealExec:
             raise SystemExit("no codec for " + clsname)
         self.enc, self.dec, _ = cd
         self.conv = convert_target(imath, clsname)
+        self.comp = comp_info(imath, clsname)
         self.reset()
 
     def reset(self):
         self.objs = []     # (array, decoder)
+        self.encs = {}     # view id -> encoder, for views whose elements are not of the class under test
         self.d2 = []
         self.mats = []
         self.strs = None
+        self.vas = []
+        self.sas = {}
 
     def ref(self, s):
         i = int(s)
@@ -153,8 +227,100 @@ class RealExec:
             raise BadRef()
         return self.objs[i][0]
 
-    def new(self, a, dec=None):
+    # ---- FixedVArray: the class whose ROWS are arrays of the class under test (IntArray -> VIntArray, ...)
+    VCLS = {"IntArray": "VIntArray", "FloatArray": "VFloatArray", "V2iArray": "VV2iArray", "V2fArray": "VV2fArray"}
+
+    def rv(self, s):
+        i = int(s)
+        if i < 0 or i >= len(self.vas):
+            raise BadRef()
+        return self.vas[i]
+
+    def newv(self, a):
+        self.vas.append(a)
+        return "new %d" % (len(self.vas) - 1)
+
+    def dumpv(self, a):
+        rows = []
+        for i in range(len(a)):
+            r = a[i]
+            rows.append(show([self.dec(r[j]) for j in range(len(r))]))
+        return ("w" if a.writable() else "r") + "[" + ",".join(rows) + "]"
+
+    def runv(self, t):
+        im = self.imath
+        V = getattr(im, self.VCLS.get(self.clsname, "VIntArray"))
+        op = t[0]
+        if op == "new":
+            return self.newv(V(int(t[1])))
+        if op == "newfill":
+            return self.newv(V(self.enc(int(t[1])), int(t[2])))
+        if op == "newsizes":
+            return self.newv(V(self.ref(t[1]), self.enc(int(t[2]))))
+        a = self.rv(t[1])
+        if op == "copy":
+            return self.newv(V(a))
+        if op == "len":
+            return "int %d" % len(a)
+        if op == "row":
+            r = a[int(t[2])]
+            return "row " + show([self.dec(r[j]) for j in range(len(r))])
+        if op == "setelem":
+            a[int(t[2])][int(t[3])] = self.enc(int(t[4]))
+            return "ok"
+        if op == "getslice":
+            return self.newv(a[p_idx(t[2])])
+        if op == "getmask":
+            return self.newv(a[self.ref(t[2])])
+        if op == "setrow":
+            a[p_idx(t[2])] = self.ref(t[3])
+            return "ok"
+        if op == "setrowmask":
+            a[self.ref(t[2])] = self.ref(t[3])
+            return "ok"
+        if op == "setvec":
+            a[p_idx(t[2])] = self.rv(t[3])
+            return "ok"
+        if op == "setvecmask":
+            a[self.ref(t[2])] = self.rv(t[3])
+            return "ok"
+        if op == "ro":
+            a.makeReadOnly()
+            return "ok"
+        if op == "size":
+            r = a.size[int(t[2])]
+            return "int %d" % r if isinstance(r, int) else "arr " + show([int(r[j]) for j in range(len(r))])
+        if op == "sizeslice":
+            return self.new(a.size[p_idx(t[2])], int)
+        if op == "sizemask":
+            return self.new(a.size[self.ref(t[2])], int)
+        if op in ("setsize", "setsizemask", "setsizevec", "setsizevecmask"):
+            before = [len(a[i]) for i in range(len(a))]
+            try:
+                if op == "setsize":
+                    a.size[p_idx(t[2])] = int(t[3])
+                elif op == "setsizemask":
+                    a.size[self.ref(t[2])] = int(t[3])
+                elif op == "setsizevec":
+                    a.size[p_idx(t[2])] = self.ref(t[3])
+                else:
+                    a.size[self.ref(t[2])] = self.ref(t[3])
+            finally:
+                # `std::vector<Vec2<T>>::resize` leaves the new elements UNINITIALISED (Vec2's default constructor does
+                # nothing); rows of scalars are zero-filled.  The harness gives the new elements of class-typed rows
+                # the value the model uses (0) so that the streams stay deterministic.
+                if self.dec(self.enc(0)) == 0 and not isinstance(self.enc(0), (int, float)):
+                    for i in range(len(a)):
+                        r = a[i]
+                        for j in range(before[i], len(r)):
+                            r[j] = self.enc(0)
+            return "ok"
+        return "bad"
+
+    def new(self, a, dec=None, src=None):
         self.objs.append((a, dec or self.dec))
+        if src is not None and src in self.encs:
+            self.encs[len(self.objs) - 1] = self.encs[src]
         return "new %d" % (len(self.objs) - 1)
 
     def mk(self, cls, vals, enc):
@@ -176,11 +342,14 @@ class RealExec:
             s += " | " + " ".join(self.dump2(a) for a in self.d2)
         if self.mats:
             s += " | " + " ".join(self.dumpm(m) for m in self.mats)
+        if self.vas:
+            s += " # " + " ".join(self.dumpv(a) for a in self.vas)
         return s
 
     def dump2(self, a):
         lx, ly = a.size()
-        return "%dx%d" % (lx, ly) + show([int(a.item(i, j)) for j in range(ly) for i in range(lx)])
+        dec = self.dec2(a)
+        return "%dx%d" % (lx, ly) + show([dec(a.item(i, j)) for j in range(ly) for i in range(lx)])
 
     def dumpm(self, m):
         r, c = m.rows(), m.columns()
@@ -193,6 +362,30 @@ class RealExec:
             return self.new(self.mk(self.cls, p_vals(t[1]), self.enc))
         if op == "alloci":
             return self.new(self.mk(im.IntArray, p_vals(t[1]), int), int)
+        if op == "allocw":
+            ci = self.comp
+            w, cells = int(t[1]), p_vals(t[2])
+            if ci is None or ci["w"] != w:
+                return "err unsupported:allocw"
+            a = self.cls(len(cells) // w)
+            for i in range(len(cells) // w):
+                a[i] = ci["make"](cells[w * i:w * i + w])
+            return self.new(a, ci["first"])
+        if op == "allocc":
+            ci = self.comp
+            if ci is None:
+                return "err unsupported:allocc"
+            r = self.new(self.mk(getattr(im, ci["ccls"]), p_vals(t[1]), ci["cenc"]), ci["cdec"])
+            self.encs[len(self.objs) - 1] = ci["cenc"]
+            return r
+        if op == "comp":
+            i = int(t[1]); a = self.ref(t[1]); ci = self.comp
+            if ci is None or type(a) is not self.cls:
+                return "err unsupported:comp"
+            c = getattr(a, ci["names"][int(t[2])])
+            r = self.new(c, ci["cdec"])
+            self.encs[len(self.objs) - 1] = ci["cenc"]
+            return r
         if op == "len":
             return "int %d" % len(self.ref(t[1]))
         if op == "getitem":
@@ -203,13 +396,13 @@ class RealExec:
             return "int %s" % dec(a[int(t[2])])
         if op == "getslice":
             i = int(t[1]); a = self.ref(t[1])
-            return self.new(a[p_idx(t[2])], self.objs[i][1])
+            return self.new(a[p_idx(t[2])], self.objs[i][1], i)
         if op == "getmask":
             i = int(t[1]); a = self.ref(t[1])
-            return self.new(a[self.ref(t[2])], self.objs[i][1])
+            return self.new(a[self.ref(t[2])], self.objs[i][1], i)
         if op == "copy":
             i = int(t[1]); a = self.ref(t[1])
-            return self.new(type(a)(a), self.objs[i][1])
+            return self.new(type(a)(a), self.objs[i][1], i)
         if op == "convert":
             a = self.ref(t[1])
             if self.conv is None or type(a) is not self.cls:
@@ -236,10 +429,10 @@ class RealExec:
             return "ok"
         if op == "ifelses":
             i = int(t[1]); a = self.ref(t[1])
-            return self.new(a.ifelse(self.ref(t[2]), self.enc_for(i)(int(t[3]))), self.objs[i][1])
+            return self.new(a.ifelse(self.ref(t[2]), self.enc_for(i)(int(t[3]))), self.objs[i][1], i)
         if op == "ifelsev":
             i = int(t[1]); a = self.ref(t[1])
-            return self.new(a.ifelse(self.ref(t[2]), self.ref(t[3])), self.objs[i][1])
+            return self.new(a.ifelse(self.ref(t[2]), self.ref(t[3])), self.objs[i][1], i)
         if op == "ro":
             self.ref(t[1]).makeReadOnly()
             return "ok"
@@ -255,6 +448,8 @@ class RealExec:
             return self.run2d(t[1:])
         if op == "m":
             return self.runmat(t[1:])
+        if op == "v":
+            return self.runv(t[1:])
         return "bad"
 
     def run_str(self, t):
@@ -274,7 +469,61 @@ class RealExec:
             return "err;" + dump()
         return "bad"
 
+    def run_sa(self, t, wide=False):
+        """several string arrays (`sa ...` StringArray, `saw ...` WstringArray); returns the whole output line"""
+        im = self.imath
+        cls = im.WstringArray if wide else im.StringArray
+        key = "saw" if wide else "sa"
+        arrs = self.sas.setdefault(key, [])
+        dump = lambda: " ".join(("w" if getattr(a, "writable", lambda: True)() else "r") + "[" + ",".join(a[i] for i in range(len(a))) + "]" for a in arrs)
+
+        def ref(s):
+            i = int(s)
+            if i < 0 or i >= len(arrs):
+                raise BadRef()
+            return arrs[i]
+
+        def mask(bits):
+            return self.mk(im.IntArray, p_vals(bits), int)
+        try:
+            op = t[0]
+            if op == "new":
+                arrs.append(cls(t[2], int(t[1]))); r = "new %d" % (len(arrs) - 1)
+            elif op == "default":
+                arrs.append(cls(int(t[1]))); r = "new %d" % (len(arrs) - 1)
+            elif op == "len":
+                r = "int %d" % len(ref(t[1]))
+            elif op == "ro":
+                ref(t[1]).makeReadOnly(); r = "ok"
+            elif op == "get":
+                r = "str " + ref(t[1])[int(t[2])]
+            elif op == "set":
+                ref(t[1])[p_idx(t[2])] = t[3]; r = "ok"
+            elif op == "setmask":
+                ref(t[1])[mask(t[2])] = t[3]; r = "ok"
+            elif op == "setvec":
+                ref(t[1])[p_idx(t[2])] = ref(t[3]); r = "ok"
+            elif op == "setvecmask":
+                ref(t[1])[mask(t[2])] = ref(t[3]); r = "ok"
+            elif op == "getslice":
+                arrs.append(ref(t[1])[p_idx(t[2])]); r = "new %d" % (len(arrs) - 1)
+            elif op in ("eq", "ne"):
+                x = (ref(t[1]) == ref(t[2])) if op == "eq" else (ref(t[1]) != ref(t[2]))
+                r = "ints " + show([int(x[i]) for i in range(len(x))])
+            elif op in ("eqs", "nes"):
+                x = (ref(t[1]) == t[2]) if op == "eqs" else (ref(t[1]) != t[2])
+                r = "ints " + show([int(x[i]) for i in range(len(x))])
+            else:
+                r = "bad"
+        except BadRef:
+            r = "err badRef:badRef"
+        except Exception as e:
+            r = canon_exc(e)
+        return r + ";" + dump()
+
     def enc_for(self, i):
+        if i in self.encs:
+            return self.encs[i]
         dec = self.objs[i][1]
         return int if dec is int else self.enc
 
@@ -291,24 +540,42 @@ class RealExec:
             raise BadRef()
         return self.mats[i]
 
+    # the 2-D / matrix class whose elements are those of the class under test
+    CLS2D = {"IntArray": "IntArray2D", "FloatArray": "FloatArray2D", "DoubleArray": "DoubleArray2D",
+             "C4fArray": "Color4fArray2D", "C4cArray": "Color4cArray2D"}
+    CLSM = {"IntArray": "IntMatrix", "FloatArray": "FloatMatrix", "DoubleArray": "DoubleMatrix"}
+
     def run2d(self, t):
         im = self.imath
         op = t[0]
-        if op == "alloc":
+        C2 = getattr(im, self.CLS2D.get(self.clsname, "IntArray2D"))
+        if op in ("alloc", "alloci"):
             lx, ly, vals = int(t[1]), int(t[2]), p_vals(t[3])
-            a = im.IntArray2D(lx, ly)
+            a = (im.IntArray2D if op == "alloci" else C2)(lx, ly)
+            enc = int if op == "alloci" else self.enc
             for j in range(ly):
                 for i in range(lx):
-                    a[i, j] = vals[j * lx + i]
+                    a[i, j] = enc(vals[j * lx + i])
             self.d2.append(a)
             return "new %d" % (len(self.d2) - 1)
+        if op == "fill":
+            self.d2.append(C2(self.enc(int(t[1])), int(t[2]), int(t[3])))
+            return "new %d" % (len(self.d2) - 1)
+        if op == "copy":
+            a = self.r2(t[1])
+            self.d2.append(type(a)(a))
+            return "new %d" % (len(self.d2) - 1)
+        if op == "len":
+            return "int %d" % len(self.r2(t[1]))
         if op == "item":
-            return "int %d" % self.r2(t[1]).item(int(t[2]), int(t[3]))
+            a = self.r2(t[1])
+            return "int %d" % self.dec2(a)(a.item(int(t[2]), int(t[3])))
         if op == "getslice":
             self.d2.append(self.r2(t[1])[p_idx(t[2]), p_idx(t[3])])
             return "new %d" % (len(self.d2) - 1)
         if op == "setscalar":
-            self.r2(t[1])[p_idx(t[2]), p_idx(t[3])] = int(t[4])
+            a = self.r2(t[1])
+            a[p_idx(t[2]), p_idx(t[3])] = self.enc2(a)(int(t[4]))
             return "ok"
         if op == "setvector":
             self.r2(t[1])[p_idx(t[2]), p_idx(t[3])] = self.r2(t[4])
@@ -320,32 +587,51 @@ class RealExec:
             self.d2.append(self.r2(t[1])[self.r2(t[2])])
             return "new %d" % (len(self.d2) - 1)
         if op == "setscalarmask":
-            self.r2(t[1])[self.r2(t[2])] = int(t[3])
+            a = self.r2(t[1])
+            a[self.r2(t[2])] = self.enc2(a)(int(t[3]))
             return "ok"
         if op == "setvectormask":
             self.r2(t[1])[self.r2(t[2])] = self.r2(t[3])
             return "ok"
+        if op == "set1dmask":
+            self.r2(t[1])[self.r2(t[2])] = self.ref(t[3])
+            return "ok"
+        if op == "ifelses":
+            a = self.r2(t[1])
+            self.d2.append(a.ifelse(self.r2(t[2]), self.enc2(a)(int(t[3]))))
+            return "new %d" % (len(self.d2) - 1)
+        if op == "ifelsev":
+            self.d2.append(self.r2(t[1]).ifelse(self.r2(t[2]), self.r2(t[3])))
+            return "new %d" % (len(self.d2) - 1)
         return "bad"
+
+    def enc2(self, a):
+        return int if type(a) is self.imath.IntArray2D else self.enc
+
+    def dec2(self, a):
+        return int if type(a) is self.imath.IntArray2D else self.dec
 
     def runmat(self, t):
         im = self.imath
         op = t[0]
         if op == "alloc":
             r, c, vals = int(t[1]), int(t[2]), p_vals(t[3])
-            m = im.IntMatrix(r, c)
+            m = getattr(im, self.CLSM.get(self.clsname, "IntMatrix"))(r, c)
             for i in range(r):
                 row = m[i]
                 for j in range(c):
-                    row[j] = vals[i * c + j]
+                    row[j] = self.enc(vals[i * c + j])
             self.mats.append(m)
             return "new %d" % (len(self.mats) - 1)
+        if op == "len":
+            return "int %d" % len(self.rm(t[1]))
         if op == "row":
-            return self.new(self.rm(t[1])[int(t[2])], int)
+            return self.new(self.rm(t[1])[int(t[2])], self.dec)
         if op == "getslice":
             self.mats.append(self.rm(t[1])[p_idx(t[2])])
             return "new %d" % (len(self.mats) - 1)
         if op == "setscalar":
-            self.rm(t[1])[p_idx(t[2])] = int(t[3])
+            self.rm(t[1])[p_idx(t[2])] = self.enc(int(t[3]))
             return "ok"
         if op == "setvector":
             self.rm(t[1])[p_idx(t[2])] = self.ref(t[3])
@@ -407,6 +693,33 @@ class SV:
         return len(self.base) if self.sel is None else len(self.sel)
 
 
+class SW(SV):
+    """a vector array of w-component elements: one shared base list per component; reads as its FIRST component
+    (like the model and the real harness); `comp k` is an SV on component list k with the same selection"""
+    __slots__ = ("cols",)
+
+    def __init__(self, cols, sel=None, ulen=0, writable=True):
+        SV.__init__(self, cols[0], sel, ulen, writable)
+        self.cols = cols
+
+
+class VS:
+    """a variable array: nested Python lists (shared base list of row lists, selected positions)"""
+    __slots__ = ("base", "sel", "ulen", "writable")
+
+    def __init__(self, base, sel=None, ulen=0, writable=True):
+        self.base, self.sel, self.ulen, self.writable = base, sel, ulen, writable
+
+    def positions(self):
+        return list(range(len(self.base))) if self.sel is None else list(self.sel)
+
+    def rows(self):
+        return [self.base[p] for p in self.positions()]
+
+    def __len__(self):
+        return len(self.base) if self.sel is None else len(self.sel)
+
+
 class SpecErr(Exception):
     def __init__(self, kind, cls="ValueError"):
         self.kind, self.cls = kind, cls
@@ -425,6 +738,8 @@ class SpecExec:
         self.d2 = []
         self.mats = []
         self.strs = []
+        self.vas = []
+        self.sas = {}
         self.alias = False
 
     def ref(self, s):
@@ -462,8 +777,17 @@ class SpecExec:
     def run(self, t):
         op = t[0]
         self.alias = False
-        if op in ("alloc", "alloci"):
+        if op in ("alloc", "alloci", "allocc"):
             return self.new(SV(p_vals(t[1])))
+        if op == "allocw":
+            w, cells = int(t[1]), p_vals(t[2])
+            return self.new(SW([cells[k::w] for k in range(w)]))
+        if op == "comp":
+            v = self.ref(t[1])
+            if not isinstance(v, SW):
+                raise SpecErr("unsupported")
+            # the component array of a masked reference is the masked reference of the component array
+            return self.new(SV(v.cols[int(t[2])], None if v.sel is None else list(v.sel), v.ulen, v.writable))
         if op == "len":
             return "int %d" % len(self.ref(t[1]))
         if op == "getitem":
@@ -490,9 +814,14 @@ class SpecExec:
             if len(m) != len(v):
                 raise SpecErr("dimMismatch")
             bits = m.tolist()
-            return self.new(SV(v.base, [i for i in range(len(v)) if bits[i] != 0], len(v), v.writable))
+            sel = [i for i in range(len(v)) if bits[i] != 0]
+            if isinstance(v, SW):
+                return self.new(SW(v.cols, sel, len(v), v.writable))
+            return self.new(SV(v.base, sel, len(v), v.writable))
         if op == "copy":
             v = self.ref(t[1])
+            if isinstance(v, SW):
+                return self.new(SW(v.cols, None if v.sel is None else list(v.sel), v.ulen, v.writable))
             return self.new(SV(v.base, None if v.sel is None else list(v.sel), v.ulen, v.writable))
         if op == "convert":
             return self.new(SV(self.ref(t[1]).tolist()))
@@ -596,7 +925,139 @@ class SpecExec:
             return self.run2d(t[1:])
         if op == "m":
             return self.runmat(t[1:])
+        if op == "v":
+            return self.runv(t[1:])
         return "bad"
+
+    # ---- FixedVArray as nested Python lists
+    def rv(self, s):
+        i = int(s)
+        if i < 0 or i >= len(self.vas):
+            raise BadRef()
+        return self.vas[i]
+
+    def newv(self, v):
+        self.vas.append(v)
+        return "new %d" % (len(self.vas) - 1)
+
+    def vsel(self, v, idx):
+        """positions (into v) selected by an int or a FORWARD slice; backward slices are outside the quantifier"""
+        if isinstance(idx, slice) and idx.step is not None and idx.step < 0:
+            self.alias = True
+        return self.sel_of(range(len(v)), idx)
+
+    def vmask_positions(self, v, m, strict):
+        """virtual indices of v selected by mask m (`a[m] = ...`)"""
+        bits = m.tolist()
+        if len(m) == len(v):
+            return [i for i in range(len(v)) if bits[i] != 0]
+        if not strict and v.sel is not None and len(m) == v.ulen:
+            return list(range(len(v)))        # extension: mask of the unmasked length on a masked reference
+        raise SpecErr("dimMismatch")
+
+    @staticmethod
+    def resize(row, k):
+        del row[k:]
+        row.extend([0] * (k - len(row)))
+
+    def runv(self, t):
+        op = t[0]
+        if op == "new":
+            return self.newv(VS([[] for _ in range(int(t[1]))]))
+        if op == "newfill":
+            return self.newv(VS([[int(t[1])] for _ in range(int(t[2]))]))
+        if op == "newsizes":
+            return self.newv(VS([[int(t[2])] * k for k in self.ref(t[1]).tolist()]))
+        v = self.rv(t[1])
+        pos = v.positions()
+        if op == "copy":
+            return self.newv(VS(v.base, None if v.sel is None else list(v.sel), v.ulen, v.writable))
+        if op == "len":
+            return "int %d" % len(v)
+        if op in ("row", "size", "setelem"):
+            try:
+                row = v.rows()[int(t[2])]
+            except IndexError:
+                raise SpecErr("indexError", "IndexError")
+            if op == "row":
+                return "row " + show(row)
+            if op == "size":
+                return "int %d" % len(row)
+            if not v.writable:
+                raise SpecErr("readOnly")
+            try:
+                row[range(len(row))[int(t[3])]] = int(t[4])
+            except IndexError:
+                raise SpecErr("indexError", "IndexError")
+            return "ok"
+        if op == "getslice":
+            ks = self.vsel(v, p_idx(t[2]))
+            return self.newv(VS([list(v.base[pos[k]]) for k in ks]))
+        if op == "sizeslice":
+            ks = self.vsel(v, p_idx(t[2]))
+            return self.new(SV([len(v.base[pos[k]]) for k in ks]))
+        if op == "getmask":
+            m = self.ref(t[2])
+            if v.sel is not None:
+                raise SpecErr("maskedMask")
+            if len(m) != len(v):
+                raise SpecErr("dimMismatch")
+            bits = m.tolist()
+            return self.newv(VS(v.base, [i for i in range(len(v)) if bits[i] != 0], len(v), v.writable))
+        if op == "sizemask":
+            m = self.ref(t[2])
+            if len(m) != len(v):
+                raise SpecErr("dimMismatch")
+            bits = m.tolist()
+            return self.new(SV([len(v.base[pos[i]]) for i in range(len(v)) if bits[i] != 0]))
+        if op == "ro":
+            v.writable = False
+            return "ok"
+        # ---- writes
+        if not v.writable:
+            raise SpecErr("readOnly")
+        if op in ("setrow", "setsize", "setvec", "setsizevec"):
+            ks = self.vsel(v, p_idx(t[2]))
+        elif op in ("setrowmask", "setsizemask"):
+            ks = self.vmask_positions(v, self.ref(t[2]), False)
+        else:
+            if v.sel is not None:
+                raise SpecErr("maskedSetMask")
+            ks = self.vmask_positions(v, self.ref(t[2]), True)
+        if op in ("setrow", "setrowmask"):
+            data = self.ref(t[3]).tolist()
+            for k in ks:
+                row = v.base[pos[k]]
+                if len(row) != len(data):
+                    raise SpecErr("rowLenMismatch")      # raised in the middle: the rows before stay assigned
+                row[:] = data
+            return "ok"
+        if op in ("setsize", "setsizemask"):
+            for k in ks:
+                self.resize(v.base[pos[k]], int(t[3]))
+            return "ok"
+        if op in ("setvec", "setvecmask"):
+            b = self.rv(t[3])
+            if b.base is v.base:
+                self.alias = True
+            src = b.rows()
+        else:
+            src = self.ref(t[3]).tolist()
+        if op in ("setvec", "setsizevec"):
+            if len(src) != len(ks):
+                raise SpecErr("srcDimMismatch", "IndexError")
+        else:
+            if len(src) == len(v):
+                src = [src[k] for k in ks]
+            elif len(src) != len(ks):
+                raise SpecErr("maskDataMismatch")
+        snap = [list(r) if isinstance(r, list) else r for r in src]
+        for n, k in enumerate(ks):
+            if op in ("setvec", "setvecmask"):
+                v.base[pos[k]][:] = snap[n]
+            else:
+                self.resize(v.base[pos[k]], snap[n])
+        return "ok"
 
     # ---- nested Python lists: FixedArray2D as L[j][i] (with explicit lengths), FixedMatrix as R[i][j]
     def dump_extra(self):
@@ -606,6 +1067,8 @@ class SpecExec:
                                   for (lx, ly, L) in self.d2)
         if self.mats:
             s += " | " + " ".join("%dx%d" % (len(R), c) + show([x for row in R for x in row]) for (c, R) in self.mats)
+        if self.vas:
+            s += " # " + " ".join(("w" if v.writable else "r") + "[" + ",".join(show(r) for r in v.rows()) + "]" for v in self.vas)
         return s
 
     def r2(self, s):
@@ -627,11 +1090,20 @@ class SpecExec:
 
     def run2d(self, t):
         op = t[0]
-        if op == "alloc":
+        if op in ("alloc", "alloci"):
             lx, ly, v = int(t[1]), int(t[2]), p_vals(t[3])
             self.d2.append((lx, ly, [[v[j * lx + i] for i in range(lx)] for j in range(ly)]))
             return "new %d" % (len(self.d2) - 1)
+        if op == "fill":
+            lx, ly = int(t[2]), int(t[3])
+            self.d2.append((lx, ly, [[int(t[1])] * lx for _ in range(ly)]))
+            return "new %d" % (len(self.d2) - 1)
         lx, ly, L = self.r2(t[1])
+        if op == "copy":
+            self.d2.append((lx, ly, L))          # the copy constructor shares the data
+            return "new %d" % (len(self.d2) - 1)
+        if op == "len":
+            return "int %d" % (lx * ly)
         if op == "item":
             try:
                 return "int %d" % L[range(ly)[int(t[3])]][range(lx)[int(t[2])]]
@@ -679,11 +1151,32 @@ class SpecExec:
             dx, dy, D = self.r2(t[3])
             if (dx, dy) != (lx, ly):
                 raise SpecErr("srcDimMismatch", "IndexError")
+            snap = [list(r) for r in D]
             for j in range(ly):
                 for i in range(lx):
                     if M[j][i] != 0:
-                        L[j][i] = D[j][i]
+                        L[j][i] = snap[j][i]
             return "ok"
+        if op == "set1dmask":
+            d = self.ref(t[3]).tolist()
+            sel = [(i, j) for j in range(ly) for i in range(lx) if M[j][i] != 0]
+            if len(d) == lx * ly:
+                src = [d[j * lx + i] for (i, j) in sel]
+            elif len(d) == len(sel):
+                src = d
+            else:
+                raise SpecErr("srcDimMismatch", "IndexError")
+            for n, (i, j) in enumerate(sel):
+                L[j][i] = src[n]
+            return "ok"
+        if op in ("ifelses", "ifelsev"):
+            if op == "ifelsev":
+                ox, oy, O = self.r2(t[3])
+                if (ox, oy) != (lx, ly):
+                    raise SpecErr("srcDimMismatch", "IndexError")
+            self.d2.append((lx, ly, [[L[j][i] if M[j][i] != 0 else (O[j][i] if op == "ifelsev" else int(t[3]))
+                                      for i in range(lx)] for j in range(ly)]))
+            return "new %d" % (len(self.d2) - 1)
         return "bad"
 
     def runmat(self, t):
@@ -693,6 +1186,8 @@ class SpecExec:
             self.mats.append((c, [[v[i * c + j] for j in range(c)] for i in range(r)]))
             return "new %d" % (len(self.mats) - 1)
         c, R = self.rm(t[1])
+        if op == "len":
+            return "int %d" % len(R)
         if op == "row":
             try:
                 return self.new(SV(R[int(t[2])]))      # the inner list itself: a row is a view
@@ -722,6 +1217,79 @@ class SpecExec:
                 R[i][:] = snap[k]
             return "ok"
         return "bad"
+
+    def run_sa(self, t, wide=False):
+        arrs = self.sas.setdefault("saw" if wide else "sa", [])
+        dump = lambda: " ".join(("w" if w else "r") + "[" + ",".join(l) + "]" for (l, w) in arrs)
+        pre = ""
+
+        def ref(s):
+            i = int(s)
+            if i < 0 or i >= len(arrs):
+                raise BadRef()
+            return arrs[i]
+        try:
+            op = t[0]
+            if op == "new":
+                arrs.append([[t[2]] * int(t[1]), True]); r = "new %d" % (len(arrs) - 1)
+            elif op == "default":
+                arrs.append([[""] * int(t[1]), True]); r = "new %d" % (len(arrs) - 1)
+            elif op == "len":
+                r = "int %d" % len(ref(t[1])[0])
+            elif op == "ro":
+                ref(t[1])[1] = False; r = "ok"
+            elif op == "get":
+                try:
+                    r = "str " + ref(t[1])[0][int(t[2])]
+                except IndexError:
+                    raise SpecErr("indexError", "IndexError")
+            elif op in ("set", "setmask", "setvec", "setvecmask"):
+                a = ref(t[1])
+                if not a[1]:
+                    raise SpecErr("readOnly")
+                l = a[0]
+                if op in ("set", "setvec"):
+                    ks = self.sel_of(range(len(l)), p_idx(t[2]))
+                else:
+                    bits = p_vals(t[2])
+                    if len(bits) != len(l):
+                        raise SpecErr("dimMismatch")
+                    ks = [i for i in range(len(l)) if bits[i] != 0]
+                if op in ("set", "setmask"):
+                    for k in ks:
+                        l[k] = t[3]
+                else:
+                    b = ref(t[3])
+                    if b is a:
+                        pre = "alias "       # list semantics evaluate the right-hand side first
+                    src = list(b[0])
+                    if op == "setvec":
+                        if len(src) != len(ks):
+                            raise SpecErr("srcDimMismatch", "IndexError")
+                    elif len(src) == len(l):
+                        src = [src[k] for k in ks]
+                    elif len(src) != len(ks):
+                        raise SpecErr("srcDimMismatch", "IndexError")
+                    for n, k in enumerate(ks):
+                        l[k] = src[n]
+                r = "ok"
+            elif op == "getslice":
+                l = ref(t[1])[0]
+                arrs.append([[l[k] for k in self.sel_of(range(len(l)), p_idx(t[2]))], True]); r = "new %d" % (len(arrs) - 1)
+            elif op in ("eq", "ne"):
+                x, y = ref(t[1])[0], ref(t[2])[0]
+                if len(x) != len(y):
+                    raise SpecErr("dimMismatch")
+                r = "ints " + show([int((p == q) == (op == "eq")) for p, q in zip(x, y)])
+            elif op in ("eqs", "nes"):
+                r = "ints " + show([int((p == t[2]) == (op == "eqs")) for p in ref(t[1])[0]])
+            else:
+                r = "bad"
+        except BadRef:
+            r = "err badRef:badRef"
+        except SpecErr as e:
+            r = "err %s:%s" % (e.cls, e.kind)
+        return pre + r + ";" + dump()
 
     def run_str(self, t):
         dump = lambda: "[" + ",".join(self.strs) + "]"
@@ -763,6 +1331,9 @@ def serve(ex, inp, out, flush=False):
         if t[0] == "st":
             w(ex.run_str(t[1:]) + "\n")
             continue
+        if t[0] in ("sa", "saw"):
+            w(ex.run_sa(t[1:], t[0] == "saw") + "\n")
+            continue
         try:
             r = ex.run(t)
             if getattr(ex, "alias", False):
@@ -802,8 +1373,14 @@ def main():
                     ct = convert_target(imath, n)
                 except Exception:
                     ct = None
+            ci = None
+            try:
+                ci = comp_info(imath, n)
+            except Exception:
+                ci = None
             res[n] = {"codec": cd is not None, "generic": generic, "iadd": hasattr(c, "__iadd__"),
-                      "convert": ct[0].__name__ if ct else None}
+                      "convert": ct[0].__name__ if ct else None,
+                      "comp": None if ci is None else {"w": ci["w"], "names": list(ci["names"]), "ccls": ci["ccls"]}}
         json.dump(res, sys.stdout)
     else:
         serve(RealExec(a.cls), sys.stdin, sys.stdout, a.flush)
